@@ -4,9 +4,10 @@ pub mod c04;
 pub mod c05;
 pub mod c11;
 pub mod c12;
+pub mod prog;
 
 pub fn registry() -> Vec<&'static dyn Check> {
-    vec![&c04::C04, &c05::C05, &c11::C11, &c12::C12]
+    vec![&prog::C01, &prog::C02, &c04::C04, &c05::C05, &prog::C07, &prog::C08, &prog::C09, &c11::C11, &c12::C12]
 }
 
 pub fn find(id: &str) -> Option<&'static dyn Check> {
